@@ -20,7 +20,7 @@
 (*        and the library's own reader must return the same  (C01, C09)    *)
 (* Each mismatch is recorded with the properties it concerns.              *)
 (***************************************************************************)
-EXTENDS Exporter, CdnsFormat, Json, IOUtils
+EXTENDS Exporter, RawBlock, Json, IOUtils
 
 Tr == ndJsonDeserialize(IOEnv.TRACE)
 N  == Len(Tr)
@@ -73,9 +73,14 @@ ModelStep(e, op) ==
       [] op.op = "rot" -> LET r == StepRot(e, op.export) IN [s |-> r.s, nz |-> r.wrote, exact |-> -1]
       [] op.op = "addbp" -> LET r == StepAddBP(e, op.bp) IN [s |-> r.s, nz |-> r.idx > 0, exact |-> r.idx]
       [] op.op = "setbp" -> LET r == StepSetBP(e, op.i) IN [s |-> r.s, nz |-> r.ok, exact |-> IF r.ok THEN 1 ELSE 0]
+      [] op.op = "wbx" -> \* write_block(block) with a block built through the raw add_* API; the buffered block is untouched
+            LET b == RawModelBlock(op, e.bps) IN
+            IF ItemCount(b) = 0 THEN [s |-> e, nz |-> FALSE, exact |-> -1]
+            ELSE [s |-> [e EXCEPT !.cur = Append(@, b), !.bw = @ + 1, !.hdr = IF e.bw = 0 THEN Len(e.bps) ELSE @],
+                  nz |-> TRUE, exact |-> -1]
       [] OTHER -> [s |-> e, nz |-> FALSE, exact |-> 0]
 
-ByteCounted(op) == op.op \in {"qr", "aec", "mm", "wb", "rot"}
+ByteCounted(op) == op.op \in {"qr", "aec", "mm", "wb", "rot", "wbx"}
 
 TCall ==
     /\ l <= N /\ Tr[l].e = "C"
@@ -149,10 +154,11 @@ BlocksViol(dblocks, mblocks, bps, who, ln, i) ==
     ELSE BlockViol(dblocks[i], mblocks[i], 0, bps[mblocks[i].bpi + 1], who, ln)
          \o BlocksViol(dblocks, mblocks, bps, who, ln, i + 1)
 
-RECURSIVE TreesViol(_, _, _, _)
-TreesViol(f, D, ln, i) ==
+RECURSIVE TreesViol(_, _, _, _, _)
+TreesViol(f, D, mblocks, ln, i) ==
     IF i > Len(D.blocks) THEN <<>>
-    ELSE TreeViol(f.kids[3].kids[i], D.blocks[i], ln) \o TreesViol(f, D, ln, i + 1)
+    ELSE (IF "raw" \in DOMAIN mblocks[i] THEN <<>>       \* tables of a hand-built block are the application's business
+          ELSE TreeViol(f.kids[3].kids[i], D.blocks[i], ln)) \o TreesViol(f, D, mblocks, ln, i + 1)
 
 (* the reader dump in the form of a denotation *)
 RdBlock(rb, bps) ==
@@ -193,7 +199,7 @@ OutViol(ev, o, ln) ==
                got |-> D.preamble, want |-> expP]>>)
       \o (IF Len(D.blocks) # nb
           THEN <<[l |-> ln, prop |-> "C01,C12,C13", what |-> "number of blocks in the output differs", got |-> Len(D.blocks), want |-> nb]>>
-          ELSE BlocksViol(D.blocks, o.blocks, o.bps, "independent RFC 8618 reading", ln, 1) \o TreesViol(P.n, D, ln, 1))
+          ELSE BlocksViol(D.blocks, o.blocks, o.bps, "independent RFC 8618 reading", ln, 1) \o TreesViol(P.n, D, o.blocks, ln, 1))
       \o (IF ledger = Len(bytes) THEN <<>>
           ELSE <<[l |-> ln, prop |-> "C10", what |-> "sum of reported byte counts differs from the uncompressed size of the output",
                   reported |-> ledger, size |-> Len(bytes)]>>)
